@@ -116,6 +116,17 @@ fn sloppy_values(pc: &mut PcRead, r: &mut Rng) {
             if !matches!(pc.proto[k].dt, DType::Int { .. }) || r.chance(1, 3) {
                 continue;
             }
+            if r.chance(1, 6) {
+                // a constant state record (minimum = maximum, no bits in the file): every point
+                // of the cloud has that state
+                let upper = if std == CINV || std == SINV { 3 } else { 2 };
+                let c = r.below(upper) as i64;
+                pc.proto[k].dt = DType::Int { min: c, max: c };
+                for p in points.iter_mut() {
+                    p[k] = Val::I(c);
+                }
+                continue;
+            }
             let (lo, hi) = *r.pick(&[(0i64, 255i64), (-1, 2), (0, 1000), (0, 65535), (-128, 127), (i64::MIN, i64::MAX), (0, 3), (-300, 300), (0, 256)]);
             pc.proto[k].dt = DType::Int { min: lo, max: hi };
             if r.chance(1, 2) && !points.is_empty() {
